@@ -9,7 +9,7 @@ import traceback
 
 HERE = os.path.dirname(os.path.abspath(__file__))
 VERIF = os.path.dirname(HERE)
-REPO_SRC = os.environ.get("VERIF_REPO_SRC", "/repo/src")
+REPO_SRC = os.path.join(os.environ.get("VERIF_REPO", "/repo"), "src")
 sys.path.insert(0, VERIF)
 sys.path.insert(0, REPO_SRC)
 sys.dont_write_bytecode = True
